@@ -19,6 +19,7 @@ TStep ==
      \/ Ev.ev = "precv" /\ PeerRecv(Ev.i)
      \/ Ev.ev = "psend" /\ PeerSend(Ev.i)
      \/ Ev.ev \in {"pdrop", "ioshut"} /\ Lose
+     \/ Ev.ev = "disc_call" /\ DiscCall
      \/ Ev.ev = "ret" /\ Ev.kind \in {"reply", "secop"} /\ RetReply(Ev.i, Ev.gid)
      \/ Ev.ev = "ret" /\ Ev.kind = "timeout" /\ RetTimeout(Ev.i, Ev.dt)
      \/ Ev.ev = "ret" /\ Ev.kind = "connerr" /\ RetConnErr(Ev.i)
